@@ -69,7 +69,8 @@ type Payload struct {
 	Fail   bool   // the reader fails once (transiently) ...
 	FailAt int    // ... when it reaches this offset
 	Kind   string // none | value | reader | readcloser
-	VKind  string // value: json-map | text | bytes | xml | yaml | csv | html ; reader: chunked | bytesbuffer | stringsreader
+	VKind  string // value: json-map | text | bytes | xml | yaml | csv | html ; reader: chunked | bytesbuffer | stringsreader | bytesreader | osfile
+	Skip   int    // seekable readers (stringsreader, bytesreader, osfile): bytes of a preamble the caller consumed before handing the reader over
 	Len    int
 	Seed   int
 	Chunk  int
@@ -114,7 +115,8 @@ func (c Case) JSON() M {
 	}
 	return M{"media": c.Media, "method": method, "presetct": c.PresetCT, "debug": c.Debug, "defauth": c.DefAuth, "csvskip": c.CSVSkip,
 		"payload": M{"kind": c.Payload.Kind, "vkind": c.Payload.VKind, "len": c.Payload.Len, "seed": c.Payload.Seed, "chunk": c.Payload.Chunk,
-			"fail": c.Payload.Fail, "fail_at": c.Payload.FailAt},
+			"fail": c.Payload.Fail, "fail_at": c.Payload.FailAt, "skip": c.Payload.Skip,
+			"seekable": c.Payload.VKind == "stringsreader" || c.Payload.VKind == "bytesreader" || c.Payload.VKind == "osfile"},
 		"fields": fields, "files": files, "auth": c.Auth, "k": c.K, "via": c.Via}
 }
 
@@ -146,7 +148,7 @@ func caseFrom(d M) Case {
 	c.Media = drv.Str(d["media"])
 	p := drv.Map(d["payload"])
 	c.Payload = Payload{Kind: drv.Str(p["kind"]), VKind: drv.Str(p["vkind"]), Len: drv.Int(p["len"]), Seed: drv.Int(p["seed"]), Chunk: drv.Int(p["chunk"]),
-		Fail: drv.Bool(p["fail"]), FailAt: drv.Int(p["fail_at"])}
+		Fail: drv.Bool(p["fail"]), FailAt: drv.Int(p["fail_at"]), Skip: drv.Int(p["skip"])}
 	for _, f := range drv.List(d["fields"]) {
 		m := drv.Map(f)
 		kv := KV{K: trace.Str(m["k"])}
@@ -448,13 +450,39 @@ func prepare(cs Case) *prepared {
 		data := content(Item{Len: cs.Payload.Len, Head: "bin", Seed: cs.Payload.Seed})
 		p.supplied["payload"] = sha(data)
 		src := &source{data: data, chunk: cs.Payload.Chunk, fail: cs.Payload.Fail, failAt: cs.Payload.FailAt}
+		// seekable readers hold a preamble of Skip bytes which the caller has consumed: the payload is what they yield from there
+		whole := append(lead(cs.Payload.Skip), data...)
 		switch {
+		case cs.Payload.VKind == "osfile":
+			dir, err := os.MkdirTemp(scratchDir(), "p")
+			if err != nil {
+				panic(err)
+			}
+			path := filepath.Join(dir, "payload.bin")
+			if err := os.WriteFile(path, whole, 0o600); err != nil {
+				panic(err)
+			}
+			p.toRemove = append(p.toRemove, dir)
+			f, err := os.Open(path)
+			if err != nil {
+				panic(err)
+			}
+			if _, err := f.Seek(int64(cs.Payload.Skip), io.SeekStart); err != nil {
+				panic(err)
+			}
+			payload = f
+		case cs.Payload.VKind == "bytesreader":
+			rd := bytes.NewReader(whole)
+			_, _ = rd.Seek(int64(cs.Payload.Skip), io.SeekStart)
+			payload = rd
+		case cs.Payload.VKind == "stringsreader":
+			rd := strings.NewReader(string(whole))
+			_, _ = rd.Seek(int64(cs.Payload.Skip), io.SeekStart)
+			payload = rd
 		case cs.Payload.Kind == "readcloser":
 			payload = src
 		case cs.Payload.VKind == "bytesbuffer":
 			payload = bytes.NewBuffer(append([]byte{}, data...))
-		case cs.Payload.VKind == "stringsreader":
-			payload = strings.NewReader(string(data))
 		default:
 			payload = readOnly{src}
 		}
@@ -1089,6 +1117,33 @@ func generate(c *drv.Ctx) {
 			}
 		}
 	}
+	// (iv-i) seekable reader payloads (strings.Reader, bytes.Reader, *os.File) handed over past a consumed preamble x GetBody 0/1/3
+	// times x operation / default / both writer placement: the payload is what the reader yields from its position
+	for _, vk := range []string{"stringsreader", "bytesreader", "osfile"} {
+		for _, skip := range []int{0, 1, 8, 600} {
+			for _, l := range []int{0, 1, 700, 5000} {
+				for _, place := range []string{"none", "op", "default", "both"} {
+					for _, k := range []int{0, 1, 3} {
+						if place == "none" && k > 0 {
+							continue
+						}
+						for _, via := range []string{"create", "submit"} {
+							seed++
+							kind := "reader"
+							if vk == "osfile" {
+								kind = "readcloser"
+							}
+							cs := Case{Media: "application/octet-stream", Via: via, K: k,
+								Payload: Payload{Kind: kind, VKind: vk, Len: l, Seed: seed, Skip: skip}}
+							cs.Auth = place == "op" || place == "both"
+							cs.DefAuth = place == "default" || place == "both"
+							emit(cs)
+						}
+					}
+				}
+			}
+		}
+	}
 	// (iv-c) uploads overlapping in time: all requests of a batch are built before the first is sent (single P, then all Ps),
 	// or submitted concurrently; every file without declared type, distinct contents
 	mkUpload := func(i, l int, declared string) Case {
@@ -1148,6 +1203,7 @@ func randomCase(c *drv.Ctx) Case {
 	case 0: // payload
 		m := []string{mJSON, "text/plain", "application/octet-stream"}[r.Intn(3)]
 		kinds := []Payload{{Kind: "reader", VKind: "chunked"}, {Kind: "readcloser", VKind: "chunked"}, {Kind: "reader", VKind: "bytesbuffer"},
+			{Kind: "reader", VKind: "bytesreader", Skip: []int{0, 3, 1000}[r.Intn(3)]}, {Kind: "reader", VKind: "stringsreader", Skip: []int{0, 5}[r.Intn(2)]},
 			{Kind: "value", VKind: map[string]string{mJSON: "json-map", "text/plain": "text", "application/octet-stream": "bytes"}[m]}}
 		p := kinds[r.Intn(len(kinds))]
 		p.Len, p.Seed = r.Intn(20000), r.Intn(1<<20)
